@@ -143,7 +143,7 @@ func genGWMix(g *Gen, weird float64, tag string) *Plan {
 		p.Broker.Injects = append(p.Broker.Injects, BrokerInject{AtMs: g.Range(2000, end+1), Session: "p1", Force: true, Topic: "t/a", Payload: serialPayload("big:", 0, sz), QoS: uint8(g.Intn(3))})
 	}
 	if g.Bool(0.1) {
-		p.Broker.SubackCodes = []byte{0, 1, 2, 0x80}[g.Intn(4) : g.Intn(4)+1]
+		p.Broker.SubackCodes = []byte{[]byte{0, 1, 2, 0x80}[g.Intn(4)]}
 	}
 	p.Cfg.HorizonMs = end + 3000
 	return p
